@@ -40,17 +40,20 @@ func peerBCE(c *an.Check, pats ...string) *an.BCE {
 	return b
 }
 
-func c10(c *an.Check) {
+// peerIDDecodeObligations decides the exactness of peer-ID decoding (shared by C01 and C10): it returns the
+// decoder, encoder and callee handles, or ok=false.
+func peerIDDecodeObligations(c *an.Check) (dec, enc, ifb, epk, bd *ssa.Function, cEnc an.Callee, ok bool) {
 	p := c.P
 	// role-based anchors for the two unexported helpers
-	dec := one(pkgFuncsWhere(p, "peer", func(f *ssa.Function) bool { return callsAny(f, cUvarint) }))
-	enc := one(pkgFuncsWhere(p, "peer", func(f *ssa.Function) bool { return callsAny(f, cPutUvarint) }))
+	dec = one(pkgFuncsWhere(p, "peer", func(f *ssa.Function) bool { return callsAny(f, cUvarint) }))
+	enc = one(pkgFuncsWhere(p, "peer", func(f *ssa.Function) bool { return callsAny(f, cPutUvarint) }))
 	if dec == nil || enc == nil {
 		c.Undecided("GATE", "peer multihash decoder/encoder", nil, "unresolved anchor: expected exactly one function in package peer calling binary.Uvarint and one calling binary.PutUvarint")
 		return
 	}
+	ok = true
 	cDec := an.Callee{Pkg: "./peer", Name: dec.Name()}
-	cEnc := an.Callee{Pkg: "./peer", Name: enc.Name()}
+	cEnc = an.Callee{Pkg: "./peer", Name: enc.Name()}
 	uv := an.Calls(dec, cUvarint)
 	c.Gate(an.GateSpec{Construct: "peer multihash decode success-return", Fn: dec, Sink: successReturn, Reqs: []an.Req{
 		{Name: "every varint consumed >0 bytes", Holds: func(s *an.State, at ssa.Instruction) bool {
@@ -119,7 +122,7 @@ func c10(c *an.Check) {
 	c.Require(len(uv) == 2, "MIRROR", "peer multihash decode reads two varints", dec, "", len(uv), "two Uvarint reads", "decoder does not read exactly two varints")
 
 	// IDFromBytes: cast only past decode ok, and casts its own argument
-	ifb := p.Func("peer", "", "IDFromBytes")
+	ifb = p.Func("peer", "", "IDFromBytes")
 	c.Gate(an.GateSpec{Construct: "peer.IDFromBytes success-return", Fn: ifb, Sink: successReturn, Reqs: []an.Req{an.CallOK("multihash decode ok", cDec)}})
 	c.EachReturn("PROVENANCE", "peer.IDFromBytes returns its validated argument", ifb, "ID(b)", func(s *an.State, ret *ssa.Return) string {
 		if s.KnownNonNilErr(s.RetVal(ret, -1)) {
@@ -135,7 +138,7 @@ func c10(c *an.Check) {
 		return ""
 	})
 	// ExtractPublicKey: parse only past decode ok and identity code
-	epk := p.Func("peer", "ID", "ExtractPublicKey")
+	epk = p.Func("peer", "ID", "ExtractPublicKey")
 	c.Gate(an.GateSpec{Construct: "peer.ID.ExtractPublicKey key-parse call", Fn: epk,
 		Sink: func(s *an.State, ins ssa.Instruction) bool { return an.IsCallTo(ins, fnUnmarshalPublicKey) },
 		Reqs: []an.Req{an.CallOK("multihash decode ok", cDec),
@@ -153,6 +156,23 @@ func c10(c *an.Check) {
 			ok = isE && e.Index == 1 && e.Tuple == ssa.Value(dc[0])
 		}
 		c.Require(ok, "PROVENANCE", "peer.ID.ExtractPublicKey parses the digest of its own ID", epk, "", len(uc)+len(dc), "UnmarshalPublicKey(decode([]byte(id)).digest)", "the key is not parsed from the digest of the receiver ID")
+	}
+	bd = p.Func("peer", "", "IDB58Decode")
+	c.Gate(an.GateSpec{Construct: "peer.IDB58Decode success-return", Fn: bd, Sink: successReturn, Reqs: []an.Req{
+		an.CallOK("base58 decode ok", an.X("github.com/mr-tron/base58/base58", "", "Decode")), an.CallOK("IDFromBytes ok", an.R("peer", "", "IDFromBytes"))}})
+	if bd != nil {
+		ic := an.Calls(bd, an.R("peer", "", "IDFromBytes"))
+		okk := len(ic) == 1 && an.ResultCallTo(ic[0].Call.Args[0], an.X("github.com/mr-tron/base58/base58", "", "Decode")) != nil
+		c.Require(okk, "PROVENANCE", "peer.IDB58Decode validates the decoded bytes", bd, "", len(ic), "IDFromBytes(b58.Decode(s))", "the decoded bytes are not passed through IDFromBytes")
+	}
+	return
+}
+
+func c10(c *an.Check) {
+	p := c.P
+	dec, enc, ifb, epk, bd, cEnc, ok := peerIDDecodeObligations(c)
+	if !ok {
+		return
 	}
 	// IDFromPublicKey: identity multihash over the marshalled key
 	ifp := p.Func("peer", "", "IDFromPublicKey")
@@ -191,15 +211,6 @@ func c10(c *an.Check) {
 		}
 		return ""
 	})
-	// IDB58Decode -> IDFromBytes(b58.Decode(s))
-	bd := p.Func("peer", "", "IDB58Decode")
-	c.Gate(an.GateSpec{Construct: "peer.IDB58Decode success-return", Fn: bd, Sink: successReturn, Reqs: []an.Req{
-		an.CallOK("base58 decode ok", an.X("github.com/mr-tron/base58/base58", "", "Decode")), an.CallOK("IDFromBytes ok", an.R("peer", "", "IDFromBytes"))}})
-	if bd != nil {
-		ic := an.Calls(bd, an.R("peer", "", "IDFromBytes"))
-		ok := len(ic) == 1 && an.ResultCallTo(ic[0].Call.Args[0], an.X("github.com/mr-tron/base58/base58", "", "Decode")) != nil
-		c.Require(ok, "PROVENANCE", "peer.IDB58Decode validates the decoded bytes", bd, "", len(ic), "IDFromBytes(b58.Decode(s))", "the decoded bytes are not passed through IDFromBytes")
-	}
 	// confparse.ParsePeerID goes through IDB58Decode
 	if pp := p.Func("util/confparse", "", "ParsePeerID"); pp != nil {
 		c.Gate(an.GateSpec{Construct: "confparse.ParsePeerID non-empty success-return", Fn: pp,
